@@ -85,6 +85,23 @@ def check(run, prog):
         ("np.add(z, y, out=(y,))", uf("add", 2, 1), [z, z2], {"out": TupleV([z2])}, z),
         ("np.add(z, c, out=(A,))", uf("add", 2, 1), [z, sc], {"out": TupleV([arr])}, z),
         ("np.modf(w, out=(None, w))", uf("modf", 1, 2), [zi], {"out": TupleV([NONE, zi])}, zi),
+        ("np.divide(z, y, out=(z,), where=A)", uf("divide", 2, 1), [z, z2], {"out": TupleV([z]), "where": arr}, z),
+        ("np.multiply(w, c, out=(w,), casting='unsafe', dtype=...)", uf("multiply", 2, 1), [zi, sc],
+         {"out": TupleV([zi]), "casting": StrV("unsafe"), "dtype": ExtV("numpy.float32")}, zi),
+    ]
+    # mixed precisions: NumPy's promotion decides the result dtype, and the wrapped result keeps it
+    z32 = make_signal(prog, "BasebandSignal", nchan=2, name="z32", dtype="complex64")
+    w32 = make_signal(prog, "IntensitySignal", nchan=2, name="w32", dtype="float32")
+    s16 = make_signal(prog, "Signal", name="s16", dtype="int16")
+    a64 = Num(sp.Symbol("A64"), kind="array", shape=(N, 2), tag="data", backend="numpy", dtype=ExtV("numpy.float64"))
+    i64 = Num(sp.Symbol("I64"), kind="array", shape=(N,), tag="data", backend="numpy", dtype=ExtV("numpy.int64"))
+    plans += [
+        ("np.multiply(z32, A64): complex64 signal times float64 array", uf("multiply", 2, 1), [z32, a64], {}, z32),
+        ("np.multiply(A64, z32)", uf("multiply", 2, 1), [a64, z32], {}, z32),
+        ("np.add(w32, A64): float32 signal plus float64 array", uf("add", 2, 1), [w32, a64], {}, w32),
+        ("np.add(w32, w): float32 signal plus float64 signal", uf("add", 2, 1), [w32, zi], {}, w32),
+        ("np.add(s16, I64): int16 signal plus int64 array", uf("add", 2, 1), [s16, i64], {}, s16),
+        ("np.modf(w32)", uf("modf", 1, 2), [w32], {}, w32),
     ]
     for label, ufunc, inputs, kw, selfv in plans:
         ev = ck.evaluator()
@@ -124,6 +141,12 @@ def check(run, prog):
                     and not [t for t in ev.trace if t[0] == "subclass-stripped"]
                 ck.same("R2", fi.where, label + f": result {k}", "wrapped in the class and metadata of the dispatching signal, holding that ufunc output",
                         ok, found=obj_summary(res) if isinstance(res, ObjV) else repr(res)[:120], nontrivial=True)
+                from ..extapi import ufunc_result_dtype
+                want_dt = ufunc_result_dtype(name, cargs, ckw)
+                got_dt = res.attrs["_data"].dtype if isinstance(res, ObjV) and isinstance(res.attrs.get("_data"), Num) else None
+                if isinstance(want_dt, ExtV) and ok:
+                    ck.same("R2", fi.where, label + f": result {k} dtype", "the wrapped data has the dtype NumPy gave the ufunc output (no narrowing back to the operand's precision)",
+                            isinstance(got_dt, ExtV) and got_dt.dotted == want_dt.dotted, found=repr(got_dt), expected=repr(want_dt), nontrivial=True)
             else:
                 ck.same("R2", fi.where, label + f": result {k}", "the given out object itself is returned (its own metadata is kept)", res is g,
                         found=repr(res)[:120], nontrivial=True)
@@ -145,18 +168,7 @@ def check(run, prog):
             ok = isinstance(r, Num) and r.expr == dz.expr and (dt is None or (isinstance(r.dtype, ExtV) and r.dtype.dotted == "numpy." + dt))
             ck.same("R3", fa.where, f"np.asarray(z{'' if dt is None else ', dtype=' + dt})", "yields the signal's data (converted to the requested dtype)",
                     ok, found=f"{r!r} dtype={getattr(r, 'dtype', None)!r}", nontrivial=True)
-    # the copy argument of the protocol: NumPy 2 calls __array__(copy=True) for np.array(z) / np.copy(z) and trusts the result to be
-    # a fresh array; handing back the signal's own buffer makes later in-place operations on the signal show through
-    for cp, want_fresh in ((BoolV(True), True), (NONE, False)):
-        ev = ck.evaluator()
-        lab = f"z.__array__(copy={'True' if want_fresh else 'None'})"
-        r = ck.attempt("R3", fa.where, lab, "evaluates", lambda: ev.call(fa, [], {"copy": cp}, self_val=z), ev=ev)
-        if r is not None and isinstance(r, Num):
-            if want_fresh:
-                ck.same("R3", fa.where, lab, "returns a new array, never the signal's own buffer", r is not z.attrs["_data"] and r.expr == dz.expr,
-                        found="the signal's own data object" if r is z.attrs["_data"] else repr(r)[:80], nontrivial=True)
-            else:
-                ck.same("R3", fa.where, lab, "yields the signal's data", r.expr == dz.expr, found=repr(r)[:80])
+    array_copy_protocol(ck, prog, "R3", z)
     fl = prog.func("Signal.__len__")
     ev = ck.evaluator()
     r = ck.attempt("R3", fl.where, "len(z)", "evaluates", lambda: ev.call(fl, [], {}, self_val=z), ev=ev)
@@ -164,6 +176,27 @@ def check(run, prog):
         ck.eq("R3", fl.where, "len(z)", "is the length of the data", r, N)
     run.extra["decided_by"] = ck.how
 
+
+
+def array_copy_protocol(ck, prog, rule, z=None):
+    """The copy argument of the __array__ protocol: NumPy 2 calls __array__(copy=True) for np.array(z) / np.copy(z) /
+    np.nan_to_num(z) and trusts the result to be a fresh array; handing back the signal's own buffer makes the caller's later
+    in-place writes land in the signal."""
+    fa = prog.func("Signal.__array__")
+    ck.run.touched(fa)
+    if z is None:
+        z = make_signal(prog, "BasebandSignal", nchan=2)
+    dz = z.attrs["_data"]
+    for cp, want_fresh in ((BoolV(True), True), (NONE, False)):
+        ev = ck.evaluator()
+        lab = f"z.__array__(copy={'True' if want_fresh else 'None'})"
+        r = ck.attempt(rule, fa.where, lab, "evaluates", lambda: ev.call(fa, [], {"copy": cp}, self_val=z), ev=ev)
+        if r is not None and isinstance(r, Num):
+            if want_fresh:
+                ck.same(rule, fa.where, lab, "returns a new array, never the signal's own buffer", r is not z.attrs["_data"] and r.expr == dz.expr,
+                        found="the signal's own data object" if r is z.attrs["_data"] else repr(r)[:80], nontrivial=True)
+            else:
+                ck.same(rule, fa.where, lab, "yields the signal's data", r.expr == dz.expr, found=repr(r)[:80])
 
 def _same_val(a, b):
     if a is b:
